@@ -65,6 +65,13 @@ def node_schema(node):
         for i, (ek, t) in enumerate(node[1]):
             props["e%d" % i] = member_schema(ek, t)
         return {"type": "object", "properties": props, "enum": [{"label": "a"}, {"label": "b"}]}
+    if k == "anyof":
+        # a NON-exclusive anyOf of object branches: typify renders a struct of flattened Option<subtype> members (by-value edges)
+        subs = []
+        for i, (ek, t) in enumerate(node[1]):
+            subs.append(ref(t) if ek == "newtype" else {"type": "object", "properties": {"x%d" % i: ref(t)}})
+        subs.append({"type": "object", "properties": {"other": INT}})
+        return {"anyOf": subs}
     if k in ("enum_int", "enum_adj", "enum_unt"):
         subs = []
         for i, (ek, t) in enumerate(node[1]):
@@ -130,6 +137,7 @@ def node_options(n, reduced=False, max_edges=2):
     # listed values cannot mention the referring member) and internally / adjacently tagged and untagged enums with a struct variant
     out += [("ntobj", ((k, t),)) for k in ("opt", "nullable", "vec") for t in range(n)]
     out += [(ek, ((k, t),)) for ek in ("enum_int", "enum_adj", "enum_unt") for k in ("sreq", "sopt") for t in range(n)]
+    out += [("anyof", ((k, t),)) for k in ("newtype", "sopt") for t in range(n)]
     ee = [(k, t) for k in EKINDS for t in range(n)]
     for m in range(1, max_edges + 1):
         for combo in itertools.combinations_with_replacement(ee, m):
@@ -166,6 +174,23 @@ def _alias_only_cycle(nodes):
 
 
 OPTKINDS = {"opt", "sopt"}
+
+
+def _anyof_flatten_cycle(nodes):
+    """input-derived: is there a cycle made only of `anyOf [$ref ..]` branches (flattened members whose type is again such a struct)?
+    serde's flatten adapters are instantiated recursively along it (known finding: recursion limit while instantiating)."""
+    nxt = {i: [t for (k, t) in nd[1] if k == "newtype"] for i, nd in enumerate(nodes) if nd[0] == "anyof"}
+    for s in nxt:
+        seen, st = set(), [s]
+        while st:
+            u = st.pop()
+            for v in nxt.get(u, []):
+                if v == s:
+                    return True
+                if v not in seen:
+                    seen.add(v)
+                    st.append(v)
+    return False
 
 
 def _shared_option_entry(nodes, share):
@@ -352,7 +377,8 @@ def execute(cases_, tier, seed):
             res.transitions += 1
             feats = {"n": c["n"], "share": c["share"], "kinds": "+".join(nd[0] for nd in c["nodes"]),
                      "alias_only_cycle": _alias_only_cycle([_deser(nd) for nd in c["nodes"]]),
-                     "shared_option_entry": _shared_option_entry([_deser(nd) for nd in c["nodes"]], c["share"])}
+                     "shared_option_entry": _shared_option_entry([_deser(nd) for nd in c["nodes"]], c["share"]),
+                     "anyof_flatten_cycle": _anyof_flatten_cycle([_deser(nd) for nd in c["nodes"]])}
             if wc.compiled is None:
                 continue
             if not wc.compiled:
